@@ -60,7 +60,7 @@ Section DY.
   Lemma auth_genuine : forall r, Auth U anchors now r ->
     (is_key r = true -> Honest (key_pk r)) /\ (is_key r = false -> GenuineSet r).
   Proof.
-    induction 1 as [kr Hk Ha|kr d Hd IHd Hv|r k sec s kr Hsec Hr Hs Hkr IHkr Hok].
+    induction 1 as [kr Hk Ha|kr d Hd IHd Hv|r k sec s kr Hsec Hr Hs Hkr IHkr Hok Hzo].
     - split; [intros _; now apply anchors_honest|congruence].
     - assert (Hkey : is_key kr = true). { inversion Hv. unfold is_key. now rewrite H. }
       split; [intros _|congruence].
